@@ -354,6 +354,9 @@ class S256Point(Point):
 
     def verify(self, z, sig):
         # remember sig.r and sig.s are the main things we're checking
+        # r and s have to be in [1, N-1] (SEC1 4.1.4 step 1)
+        if not (1 <= sig.r < N and 1 <= sig.s < N):
+            return False
         # remember 1/s = pow(s, N-2, N)
         s_inv = pow(sig.s, N - 2, N)
         # u = z / s
@@ -362,7 +365,10 @@ class S256Point(Point):
         v = sig.r * s_inv % N
         # u*G + v*P should have as the x coordinate, r
         total = u * G + v * self
-        return total.x.num == sig.r
+        # the point at infinity is not a valid result
+        if total.x is None:
+            return False
+        return total.x.num % N == sig.r
 
     def verify_message(self, message, sig):
         """Verify a message in the form of bytes. Assumes that the z
